@@ -120,6 +120,40 @@ def _legacy_state(ctx, model):
         stored = self_attrs_written(init.node) if init is not None else set()
         listed = set(f for f, _, _ in n.fields)
         ok = gm is not None and listed == stored
+        # Expression.__setstate__ pairs init_arg_names with the state, which is
+        # __getinitargs__(): the class must name, in the same order, the
+        # attributes __getinitargs__ reads (the base's init_arg_names raises)
+        ian = n.cls.members.get("init_arg_names")
+        names = None
+        if ian is not None and ian.kind in ("value", "ann"):
+            v = ian.node.value if ian.kind == "ann" else ian.node
+            if isinstance(v, (ast.Tuple, ast.List)) and all(
+                    isinstance(e, ast.Constant) and isinstance(e.value, str)
+                    for e in v.elts):
+                names = [e.value for e in v.elts]
+        got = []
+        if gm is not None and gm.kind == "func":
+            rets = [r for r in ast.walk(gm.node) if isinstance(r, ast.Return)]
+            if len(rets) == 1 and isinstance(rets[0].value, ast.Tuple):
+                for e in rets[0].value.elts:
+                    if isinstance(e, ast.Attribute) and isinstance(
+                            e.value, ast.Name) and e.value.id == "self":
+                        got.append(e.attr)
+                    else:
+                        got.append(None)
+            else:
+                raise AnalysisError(f"{name}.__getinitargs__: expected one "
+                                    "'return (self.a, self.b, ...)'")
+        ok_names = names is not None and names == got
+        ctx.ob(f"S/legacy-state/{name}/init_arg_names", ok_names, n.cls.loc(),
+               f"init_arg_names names the attributes of __getinitargs__ in order "
+               f"{names}" if ok_names else
+               (f"{name} does not define init_arg_names: pickle.loads of a "
+                f"pickled {name} ends in NotImplementedError "
+                "(Expression.__setstate__ reads it)" if names is None else
+                f"{name}.init_arg_names is {names} but __getinitargs__ returns "
+                f"the attributes {got}: the state is restored into the wrong "
+                "attributes"))
         ctx.ob(f"S/legacy-state/{name}/initargs-cover-attributes", ok,
                n.cls.loc(),
                f"__getinitargs__ returns every stored attribute {sorted(stored)}"
